@@ -149,6 +149,19 @@ CHECKS = {
              "(and impossible while the GIL is held, which the check establishes). Defect found and repaired: chunk({dim: None}).",
         technique="TLA+ scheduler/critical-section model + TLC interleavings + H2 trace validation + chunking replay",
         ref="§4 C07", engine="tlc"),
+    "C08": dict(
+        text="Regrid.tla transcribes regrid_spec stage by stage (direction stage: modulo, duplicate removal keeping the first stored "
+             "occurrence, wrap bins at +-360, linear interpolation; frequency stage: zero anchor at f=0 and zero fill; one "
+             "variance-conserving factor per spectrum with the tail rule and each grid's own widths; rotate = relabel + direction stage) "
+             "in exact rational arithmetic. MC_Regrid enumerates source grids (sorted, offset, unsorted, duplicated 0/360 bin, partial "
+             "circle) x target grids (same, finer, coarser, shifted, extending both ways) x spectra and checks ShapeIsTarget, "
+             "NonNegative, ZeroAboveTop, IdentityOnSameGrid, HsPreserved (exact), WholeBinRotationIsShift, Rotate360IsIdentity; every "
+             "state is replayed into regrid_spec / interp / interp_like / rotate against the exact rational value; for real-valued "
+             "angles the every-angle invariants are checked on the implementation.",
+        note="Trusted: TLC with overflow-safe rationals; exact on the lattice (1e-9); targets inside [0,360); a one-point frequency axis "
+             "is not interpolated (C20 table).",
+        technique="TLA+ exact-rational transcription of the regridding stages + TLC invariants + replay of every state",
+        ref="§4 C08", engine="tlc"),
 }
 
 NOT_YET = "check not yet built in this round (see DESIGN.md §4 for the planned TLA+ model); not claimed"
